@@ -3,6 +3,7 @@
 package main
 
 import (
+	"context"
 	"fmt"
 	"strings"
 	"sync"
@@ -10,12 +11,13 @@ import (
 	"github.com/NethermindEth/juno/blockchain"
 	"github.com/NethermindEth/juno/core"
 	"github.com/NethermindEth/juno/core/pending"
+	"github.com/NethermindEth/juno/pruner"
 	"verif/harness/lib"
 )
 
 // Op is one step of a history. Histories are the replay format.
 type Op struct {
-	Kind string `json:"op"`             // store | revert | query | snap | restart
+	Kind string `json:"op"`             // store | revert | query | snap | restart | prune (n = oldest block kept)
 	Plan Plan   `json:"plan,omitempty"` // store: events per transaction (absent = no transactions)
 	N    int    `json:"n,omitempty"`    // store: number of blocks with this plan (default 1); revert: depth (default 1)
 	Q    *Q     `json:"q,omitempty"`
@@ -27,6 +29,8 @@ func (o Op) String() string {
 		return fmt.Sprintf("store×%d(%d ev)", max(o.N, 1), o.Plan.events())
 	case "revert":
 		return fmt.Sprintf("revert×%d", max(o.N, 1))
+	case "prune":
+		return fmt.Sprintf("prune<%d", o.N)
 	case "query":
 		return fmt.Sprintf("query{%s [%d%s,%d%s] chunk=%d limit=%d rpc=%v pre=%d}", o.Q.F, o.Q.From, o.Q.FromTag, o.Q.To, o.Q.ToTag, o.Q.Chunk, o.Q.Limit, o.Q.Rpc, len(o.Q.Pre))
 	}
@@ -62,6 +66,7 @@ type World struct {
 	Res     *lib.Result
 	Name    string
 	Hist    []Op
+	Floor   int // oldest retained block (0 = nothing pruned)
 	drvDead bool
 	pool    *DrvPool
 	quiet   bool // no correspondence, oracle only
@@ -331,8 +336,19 @@ func (w *World) runQuery(q Q) {
 		return // no such block to take the hash of: not a query
 	}
 	var all []Em
-	tok := ""
+	tok := q.Tok
 	pages := 0
+	// a range (or token) that starts at a pruned canonical block must be refused, never answered in part
+	start := fromB
+	if q.Tok != "" {
+		var p uint64
+		fmt.Sscanf(q.Tok, "%d-%d", &start, &p)
+		w.Res.Hit("query:forged-token")
+	}
+	prunedExpected := start <= uint64(head) && start < uint64(w.Floor)
+	if q.Rpc && (q.FromTag == "hash" && q.From < w.Floor || q.ToTag == "hash" && q.To < w.Floor) {
+		return // the hash of a pruned block no longer resolves: not a query
+	}
 	agree := true
 	fail := ""
 	rep := func() map[string]any { return map[string]any{"history": w.replay(), "query": q} }
@@ -355,6 +371,16 @@ func (w *World) runQuery(q Q) {
 			}
 		}
 		pages++
+		if prunedExpected {
+			if pg.Err == "pruned" {
+				w.Res.Hit("query:pruned-range-refused")
+			} else {
+				w.Res.Violate(lib.Violation{Sig: "pruned-range-not-refused",
+					What:   fmt.Sprintf("%s: %v starts at block %d below the retention floor %d and was answered with %s", w.Name, q, start, w.Floor, pg.String()),
+					Replay: rep()})
+			}
+			return
+		}
 		if pg.Err != "" {
 			fail = "query-fails:" + pg.Err
 			w.Res.Violate(lib.Violation{Sig: "query-returns-error-" + pg.Err,
@@ -397,6 +423,9 @@ func (w *World) runQuery(q Q) {
 	}
 	if q.Rpc {
 		w.Res.Hit("query:via-rpc-handler")
+		if q.Api != "" {
+			w.Res.Hit("query:via-rpc-" + q.Api)
+		}
 	}
 	if len(q.Pre) > 0 {
 		w.Res.Hit("query:with-pre-confirmed-blocks")
@@ -415,7 +444,61 @@ func (w *World) runQuery(q Q) {
 	if emsString(all) == emsString(want) {
 		return
 	}
+	if q.Tok != "" && !strings.HasSuffix(q.Tok, "-0") {
+		// a forged token with a skip count: the answer need not be complete, but it must be a
+		// sub-list of the naive scan from the token's block (nothing wrong, nothing twice, in order)
+		if isSublist(all, want) {
+			return
+		}
+		w.Res.Violate(lib.Violation{Sig: "forged-token-yields-wrong-events",
+			What:   fmt.Sprintf("%s: %v from token %s returned %s, not a sub-list of %s", w.Name, q, q.Tok, emsString(all), emsString(want)),
+			Replay: rep()})
+		return
+	}
 	w.classify(q, all, want, agree)
+}
+
+func isSublist(a, b []Em) bool {
+	i := 0
+	for _, x := range b {
+		if i < len(a) && a[i] == x {
+			i++
+		}
+	}
+	return i == len(a)
+}
+
+// checkTokenParsing: the RPC layer accepts a continuation token iff ContinuationToken.FromString
+// does, and what it then does depends on the parsed value only.
+func (w *World) checkTokenParsing(r *lib.RNG) {
+	if len(w.Chain) == 0 || w.Floor > 0 {
+		return
+	}
+	head := len(w.Chain) - 1
+	cands := []string{"abc", "5", "5-", "-5", "-5-3", "5-3-1", "5-3x", " 5-3", "+5-3", "0x5-3", "5--3", "5 - 3", "5-+3",
+		"18446744073709551616-0", "5-18446744073709551615", "05-03", "1-1\n", fmt.Sprintf("%d-0", head), fmt.Sprintf("%d-1", head+5), "0-0", "00-0"}
+	q := Q{F: Filt{}, From: max(0, head-6), To: head, Chunk: 3, Rpc: true}
+	q.Api = lib.Pick(r, []string{"", "v9", "v8"})
+	for _, s := range cands {
+		var ct blockchain.ContinuationToken
+		perr := ct.FromString(s)
+		got := realPage(w.Node, w, q, nil, s)
+		w.Res.Hit("token-parse:checked")
+		if perr != nil {
+			if got.Err != "badtoken" {
+				w.Res.Violate(lib.Violation{Sig: "malformed-continuation-token-accepted",
+					What:   fmt.Sprintf("token %q does not parse (%v) but starknet_getEvents (%s) answered %s", s, perr, q.Api, got.String()),
+					Replay: map[string]any{"history": w.replay(), "query": q, "token": s}})
+			}
+			continue
+		}
+		canon := realPage(w.Node, w, q, nil, ct.String())
+		if got.String() != canon.String() {
+			w.Res.Violate(lib.Violation{Sig: "continuation-token-parse-not-canonical",
+				What:   fmt.Sprintf("token %q parses to %s but the two strings are answered differently: %s vs %s", s, ct.String(), got.String(), canon.String()),
+				Replay: map[string]any{"history": w.replay(), "query": q, "token": s}})
+		}
+	}
 }
 
 // want is the oracle: the naive scan of the canonical chain followed by the pre-confirmed blocks.
@@ -514,14 +597,32 @@ func (w *World) do(op Op) {
 		w.checkState("store")
 	case "revert":
 		for i := 0; i < max(op.N, 1); i++ {
+			if len(w.Chain) > 0 && len(w.Chain)%W == 0 {
+				w.Res.Hit("revert:re-opens-previous-window")
+			}
 			w.revertOne()
 		}
 		w.checkState("revert")
+	case "prune":
+		var err error
+		lib.Try(func() error {
+			_, _, err = pruner.PruneUpto(context.Background(), w.Node.DB, uint64(op.N), 1<<16)
+			return err
+		})
+		w.compare("prune-result", resStr(err), w.ask(fmt.Sprintf("prune %x", op.N)))
+		if err == nil && op.N > w.Floor && op.N < len(w.Chain) {
+			w.Floor = op.N
+			if op.N/W > 0 {
+				w.Res.Hit("prune:drops-a-persisted-window")
+			}
+		}
+		w.checkState("prune")
 	case "snap":
 		err := w.Node.BC.WriteRunningEventFilter()
 		w.compare("snap-result", resStr(err), w.ask("snap"))
 		w.checkState("snap")
 	case "restart":
+		w.hitRestartBranch()
 		w.Node.open()
 		model := w.ask("restart")
 		// the real initialiser runs lazily; its result shows at the next access. An error here
@@ -633,6 +734,35 @@ func (w *World) storeLines() []string {
 	return lines
 }
 
+// hitRestartBranch records which branch of the initialiser the coming restart takes (read from the
+// database the way the initialiser does).
+func (w *World) hitRestartBranch() {
+	if len(w.Chain) == 0 {
+		w.Res.Hit("restart:empty-chain")
+		return
+	}
+	latest := uint64(len(w.Chain) - 1)
+	rf, err := core.GetRunningEventFilter(w.Node.DB)
+	if err != nil {
+		w.Res.Hit("restart:rebuild-no-snapshot")
+		return
+	}
+	nx, _ := rf.NextBlock()
+	to, _ := rf.ToBlock()
+	switch {
+	case nx == latest+1:
+		w.Res.Hit("restart:trust-snapshot")
+	case nx <= latest && latest <= to:
+		if uint64(w.Floor) > nx {
+			w.Res.Hit("restart:fill-in-place-clamped-to-floor")
+		} else {
+			w.Res.Hit("restart:fill-in-place")
+		}
+	default:
+		w.Res.Hit("restart:rebuild-snapshot-unusable")
+	}
+}
+
 // newWorld starts an empty node + model.
 func newWorld(name string, r *lib.RNG, res *lib.Result, pool *DrvPool, v Variant, newState, prunerInit bool) *World {
 	w := &World{Src: newSource(r, !newState), Node: newNode(newState, prunerInit), Res: res, Name: name}
@@ -676,7 +806,7 @@ func (w *World) close() {
 func (w *World) fork(name string, r *lib.RNG, id uint64, pool *DrvPool, v Variant, prunerInit bool) *World {
 	f := &World{Src: w.Src.fork(r, id), Node: w.Node.forkNode(prunerInit), Res: w.Res, Name: name,
 		Chain: append([]Plan(nil), w.Chain...), Bundles: append([]*lib.Bundle(nil), w.Bundles...),
-		Hist: append([]Op{}, w.Hist...)}
+		Hist: append([]Op{}, w.Hist...), Floor: w.Floor}
 	f.startDriver(pool, v, true)
 	return f
 }
